@@ -126,6 +126,12 @@ def handle (toks : List String) : Option String :=
   | ["c07.reshare", f, to, xs] => some <| (do
       let (A, card) ← algOf f
       fieldOp A card "reshare" (← to.toNat?) (← parseNatList xs) []).getD "bad-request"
+  | ["c07.conv", _mode, bits, xs] => some <| (do
+      -- `conv_value`: y = x + r + s does not wrap for |x| <= 127 and the three output shares sum to x (mod l)
+      let bits ← bits.toNat?
+      let xs ← parseNatList xs
+      if bits + IpaVerif.Generated.C07.convSlack ≥ IpaVerif.Generated.C07.convBits then pure "panic:assertion failed" else
+      pure s!"{showNatList (xs.map fun x => (x % 2 ^ bits) % ell)} ok").getD "bad-request"
   | ["c07.vmul", _mode, _w, xs, ys] => some <| (do
       pure (vecOp "vmul" 1 1 (← parseNatList xs) (← parseNatList ys))).getD "bad-request"
   | [op, _mode, _w, n, m, xs, ys] =>
@@ -254,6 +260,18 @@ def oracle (toks : List String) (impl : String) : Option String :=
       oracleField f ((toks.headD "").drop 4).toString 0 (← natsOf xs) (← natsOf ys) impl)
   | ["c07.known", f, v] => verdict (do oracleField f "known" (← v.toNat?) [0] [0] impl)
   | ["c07.reshare", f, _to, xs] => verdict (do oracleField f "reshare" 0 (← natsOf xs) [] impl)
+  | ["c07.conv", _mode, bits, xs] => verdict (do
+      let bits ← bits.toNat?
+      let xs ← natsOf xs
+      if impl.startsWith "panic" then pure (if bits ≥ 128 then none else some s!"unexpected {impl}") else
+      match impl.splitOn " " with
+      | [vals, fl] =>
+        let vs := vals.splitOn ","
+        if vs.length ≠ xs.length then pure (some "wrong output shape") else
+        pure <| (flagOk [fl]).orElse fun _ => checkAll xs.length fun i =>
+          if vs.getD i "" == toString (xs.getD i 0 % 2 ^ bits) then none
+          else some s!"conversion of x={xs.getD i 0} ({bits} bits) reconstructs to {vs.getD i ""} in Fp25519"
+      | _ => none)
   | ["c07.vmul", _mode, _w, xs, ys] => verdict (do oracleVec "vmul" 1 1 (← natsOf xs) (← natsOf ys) impl)
   | [op, _mode, _w, n, m, xs, ys] =>
       if op ∈ ["c07.add", "c07.satadd", "c07.gt", "c07.mulint", "c07.or", "c07.and"] then verdict (do
